@@ -59,6 +59,10 @@ type oracle = (name * (coq_N * coq_N)) list
 
 val sizes_for : oracle -> name -> coq_N * coq_N
 
+val map_tabs :
+  site -> (tstate -> tstate option) -> (name * tstate) list ->
+  (name * tstate) list res
+
 val freeze_all : (name * tstate) list -> (name * tstate) list res
 
 val lift_t : 'a1 tres -> 'a1 res
